@@ -23,6 +23,18 @@ structure Laws (aa ab ba bd ad : Ordering) : Prop where
   congr_l : ab = .eq → ad = bd
   congr_r : bd = .eq → ab = ad
 
+/-- `≤`-transitivity at a triple, from the pointwise laws. -/
+theorem Laws.le_trans {aa ab ba bd ad : Ordering} (L : Laws aa ab ba bd ad)
+    (h1 : ab ≠ .gt) (h2 : bd ≠ .gt) : ad ≠ .gt := by
+  cases hab : ab with
+  | gt => exact absurd hab h1
+  | eq => rw [L.congr_l hab]; exact h2
+  | lt =>
+    cases hbd : bd with
+    | gt => exact absurd hbd h2
+    | lt => rw [L.lt_trans hab hbd]; decide
+    | eq => rw [← L.congr_r hbd, hab]; decide
+
 /-- The laws of `c` at the triple `(a, b, d)`. -/
 abbrev LawsAt {α : Type _} (c : α → α → Ordering) (a b d : α) : Prop :=
   Laws (c a a) (c a b) (c b a) (c b d) (c a d)
